@@ -42,7 +42,9 @@ def statusOf : Defect → Nat
 
 /-- a stream method is served on /init and /exchange, a unary method on the unary route -/
 def routeFits : Route → MethodKind → Bool
+  | .uploadUrl, _ => true        -- a literal route: the framework's own method, whatever the path segment would name
   | .unary, .unary => true
+  | .unary, .describe => true    -- `__describe__` is a unary method
   | .init, .producer | .init, .exchanger => true
   | .exchange, .producer | .exchange, .exchanger => true
   | _, .unknown => true          -- an unknown method is `unknownMethod`, not a mismatch
@@ -56,9 +58,14 @@ def bodyDefect (r : Route) (k : MethodKind) : Body → Bool
   | .valid => false
   | .cancel => false
   | .parseFail _ => true
+  | .badMeta .protocolVersion =>
+    -- the application-protocol version is not demanded of introspection (`__describe__` is how a mismatched client
+    -- learns the server's version) nor of the framework's upload-URL method
+    r != .exchange && r != .uploadUrl && k != .describe
   | .badMeta _ => r != .exchange
-  | .badParams _ => r != .exchange || k == .exchanger
-  | .badValue _ => r != .exchange          -- parameters travel on unary and init requests only
+  | .badParams .mismatch => (r != .exchange || k == .exchanger) && r != .uploadUrl   -- upload-URL: one optional `count`, other columns ignored
+  | .badParams .badNames => r != .exchange || k == .exchanger
+  | .badValue _ => r != .exchange && r != .uploadUrl   -- typed parameters travel on unary and init requests only
 
 /-- the defects of a request class, listed in the reference implementation's order of precedence -/
 def defects (rq : Req) : List Defect :=
@@ -70,7 +77,7 @@ def defects (rq : Req) : List Defect :=
       | _ => [])
   ++ (if rq.auth = .rejected then [.authFailure] else [])
   ++ (if rq.ctype = .correct then [] else [.wrongContentType])
-  ++ (if rq.kind = .unknown then [.unknownMethod] else [])
+  ++ (if rq.route ≠ .uploadUrl ∧ rq.kind = .unknown then [.unknownMethod] else [])
   ++ (if routeFits rq.route rq.kind then [] else [.routeMismatch])
   ++ (match rq.body with
       | .parseFail _ => [.malformed]
@@ -88,6 +95,7 @@ def dispatched (rq : Req) : Bool := (defects rq).isEmpty
     tokens, and an exchange stream's /init returns only tokens).  A cancel request dispatches nothing. -/
 def failed (rq : Req) : Bool :=
   if rq.route = .exchange ∧ rq.body = .cancel then false
+  else if rq.route ≠ .uploadUrl ∧ rq.kind = .describe then false     -- introspection runs no user code and has no cap
   else match rq.beh with
     | .ok => false
     | .raises | .turnRaises => true
